@@ -1219,10 +1219,12 @@ impl Channel {
                 counterparty_htlc_sigs.to_vec(),
             );
             self.enforcement_state.next_holder_commit_info = Some((info2, counterparty_signatures));
-        }
 
-        trace_enforcement_state!(self);
-        self.persist()?;
+            trace_enforcement_state!(self);
+            self.persist()?;
+        }
+        // otherwise nothing was changed (a retry of the current commitment, or a look at
+        // the one after next), so there is nothing to persist
 
         Ok(())
     }
@@ -2518,10 +2520,12 @@ impl Channel {
                 counterparty_htlc_sigs.to_vec(),
             );
             self.enforcement_state.next_holder_commit_info = Some((info2, counterparty_signatures));
-        }
 
-        trace_enforcement_state!(self);
-        self.persist()?;
+            trace_enforcement_state!(self);
+            self.persist()?;
+        }
+        // otherwise nothing was changed (a retry of the current commitment, or a look at
+        // the one after next), so there is nothing to persist
 
         Ok(())
     }
